@@ -67,6 +67,28 @@ def modelKinds (kind : String) (nb : Nat) : Option (List String) :=
       else if k == "commit" then Facts.writeOrderMergeCommit else [])))
   else none
 
+/-- the commits reachable from `front` through parent links (every link consumes fuel) -/
+def reachComs (u : Universe) : Nat → List Nat → List Nat → List Nat
+  | 0, _, seen => seen
+  | _ + 1, [], seen => seen
+  | fuel + 1, c :: rest, seen =>
+    if seen.contains c then reachComs u fuel rest seen
+    else match u.commit? c with
+      | some (ps, _) => reachComs u fuel (ps ++ rest) (c :: seen)
+      | none => reachComs u fuel rest (c :: seen)
+
+/-- "the same refs pointing at the same tables and history": the refs of `r` are those of `final`,
+    every commit reachable from them is stored in `r`, and so is the table of each of them that the
+    uninterrupted run ends with. Objects that no ref reaches do not count (a prune may have removed them). -/
+def sameHistory (u : Universe) (final r : RState) : Bool :=
+  let sortRefs := fun (l : List (Nat × Nat)) => l.mergeSort (fun a b => decide (a.1 ≤ b.1))
+  let fuel := u.commits.foldl (fun acc c => acc + 1 + c.2.1.length) (final.refs.length + 1)
+  let reach := reachComs u fuel (final.refs.map (·.2)) []
+  sortRefs r.refs == sortRefs final.refs &&
+  reach.all (fun c => r.coms.contains c && (match u.commit? c with
+    | some (_, t) => !final.tbls.contains t || r.tbls.contains t
+    | none => false))
+
 def handleC13 (op : String) (input impl : Json) : Except String Json := do
   match op with
   | "crash" =>
@@ -97,6 +119,17 @@ def handleC13 (op : String) (input impl : Json) : Except String Json := do
       (r.refs.mergeSort (fun a b => decide (a.1 ≤ b.1))) == (final.refs.mergeSort (fun a b => decide (a.1 ≤ b.1))) &&
       final.coms.all r.coms.contains && final.tbls.all r.tbls.contains && final.blks.all r.blks.contains &&
       final.idxs.all r.idxs.contains && final.tblIdx.all r.tblIdx.contains && (consistentClauses u heads r == [])
+    -- a recovery history: crash, then a complete prune of the reopened repository, then the operation again
+    let pruned ← (arrD "pruned").mapM rstateOf
+    let prunedOk ← (arrD "prunedOk").mapM asBool
+    let prunedReruns ← (arrD "prunedRerun").mapM rstateOf
+    let prunedRerunOk ← (arrD "prunedRerunOk").mapM asBool
+    let pruneViol :=
+      (if prunedOk.all id then [] else ["prune-after-crash-succeeds"]) ++
+      ((pruned.flatMap (consistentClauses u heads)).eraseDups.map (fun s => "after-prune:" ++ s)) ++
+      (if prunedRerunOk.all id then [] else ["rerun-after-prune-succeeds"]) ++
+      (if prunedReruns.all (sameHistory u final) then [] else ["rerun-after-prune-reaches-the-uninterrupted-outcome"]) ++
+      ((prunedReruns.flatMap (consistentClauses u heads)).eraseDups.map (fun s => "rerun-after-prune:" ++ s))
     let errViol :=
       (errStates.flatMap (consistentClauses u heads)).eraseDups ++
       -- an operation that swallows the error must still have produced the uninterrupted outcome
@@ -112,7 +145,8 @@ def handleC13 (op : String) (input impl : Json) : Except String Json := do
       (if reruns.all (fun r => (r.refs.mergeSort (fun a b => decide (a.1 ≤ b.1))) == (final.refs.mergeSort (fun a b => decide (a.1 ≤ b.1))) &&
           final.coms.all r.coms.contains && final.tbls.all r.tbls.contains && final.blks.all r.blks.contains &&
           final.idxs.all r.idxs.contains && final.tblIdx.all r.tblIdx.contains &&
-          (consistentClauses u heads r == [])) then [] else ["rerun-reaches-the-uninterrupted-outcome"])
+          (consistentClauses u heads r == [])) then [] else ["rerun-reaches-the-uninterrupted-outcome"]) ++
+      pruneViol
     -- correspondence: a crash before write k leaves exactly the k-prefix of the write sequence applied;
     -- the write kinds are what the model derives from the extracted orders
     -- With several ingest workers the block-phase writes interleave differently from run to run, so a
@@ -136,9 +170,29 @@ def handleC13 (op : String) (input impl : Json) : Except String Json := do
       canonState (c.applyAll ws) == canonState (init.applyAll ws)
     let strictPrefix := fun (c : RState) (k : Nat) => canonState (init.applyAll (ws.take k)) == canonState c
     let concurrentBlocks := kind == "commit" || kind == "merge-commit"
+    -- fetch: the order in which the remote's refs are advertised (a Go map) may change the order of the
+    -- transfer from run to run, so each interrupted run is compared with ITS OWN recorded writes: k of
+    -- them, all among the writes of the uninterrupted run, and the state is exactly their effect
+    let tracesOpt ← (arrD "traces").mapM (fun t => do (← asArr t).mapM wopOf)
+    let ownPrefix := fun (c : RState) (k : Nat) => match tracesOpt[k]? with
+      | some t => t.all Option.isSome && t.length == k && (t.filterMap id).all ws.contains &&
+                  canonState (init.applyAll (t.filterMap id)) == canonState c
+      | none => false
     let prefixOk := wsOpt.all Option.isSome &&
-      (crashes.zipIdx).all (fun (c, k) => if concurrentBlocks then crashOk c k else strictPrefix c k) &&
+      (crashes.zipIdx).all (fun (c, k) => if kind == "fetch" then ownPrefix c k else if concurrentBlocks then crashOk c k else strictPrefix c k) &&
       canonState (init.applyAll ws) == canonState final && faulted.all id
+    -- fetch / receive: refs are saved by the caller after every object arrived, and the writes of each
+    -- received table are those of the model (block indices, table index, profile, table object) in its order
+    let isRef := fun (w : WOp) => wkind w == "ref"
+    let refsLast := (ws.dropWhile (fun w => !isRef w)).all isRef
+    let tableOrderOk := (ws.filterMap (fun w => match w with | .tbl t => some t | _ => none)).all (fun t =>
+      match u.table? t with
+      | some (_, is) =>
+        -- the writes that end with the table object are exactly the model's list for that table
+        let m := receiveTableWrites Facts.writeOrderIndexTable Facts.writeOrderReceiveTable t is
+        let upTo := (ws.takeWhile (fun w => w != .tbl t)) ++ [.tbl t]
+        upTo.drop (upTo.length - m.length) == m
+      | none => false)
     let nb := (ws.filter (fun w => wkind w == "blk")).length
     let kindsOk := match modelKinds kind nb with
       | some ks =>
@@ -147,7 +201,7 @@ def handleC13 (op : String) (input impl : Json) : Except String Json := do
         norm ks == norm (ws.map wkind) &&
         -- every block index after ... and all block writes before the first table-level write
         ((ws.map wkind).takeWhile (fun k => k == "blk" || k == "blkidx")).length == 2 * nb
-      | none => true
+      | none => if kind == "fetch" then refsLast && tableOrderOk else true
     return reply (Json.str (canonState (init.applyAll ws))) (prefixOk && kindsOk) viol
   | _ => throw s!"unknown op {op}"
 
